@@ -272,7 +272,9 @@ class isolation:
         _output._DEFAULT_LOGGER = _output.Logger()
         _errors._error_extraction.registry = dict(_errors._error_extraction.registry)
         _action.time = ctx.clock
-        _action.uuid4 = ctx.uuid4
+        if not getattr(ctx, "shard", {}).get("real_uuid"):
+            # (with shard option real_uuid the code under test draws its task ids itself)
+            _action.uuid4 = ctx.uuid4
         _message.Message._time = ctx.clock
         warnings.simplefilter("ignore")
         for f in _memoised_callables():
